@@ -11,7 +11,16 @@ rsync -a --exclude target --exclude .git --exclude logs /repo/ "$S/"
 if [[ "$P" == commit:* ]]; then
   git -C /repo show "${P#commit:}" > "$S/.p.diff"; P="$S/.p.diff"
 fi
-(cd "$S" && patch -s -p1 $REV < "$P") || { echo "try_patch: patch failed"; exit 2; }
+if ! (cd "$S" && patch -s -p1 --dry-run $REV < "$P" >/dev/null 2>&1); then
+  # the patch was made against an older commit: merge it (3-way) using /repo's object store, index kept in the scratch copy
+  export GIT_DIR=/repo/.git GIT_WORK_TREE="$S" GIT_INDEX_FILE="$S/.idx"
+  git read-tree HEAD && (cd "$S" && git update-index -q --refresh >/dev/null 2>&1; git apply --3way $REV "$P" >/dev/null 2>&1) || { echo "try_patch: patch failed"; exit 2; }
+  unset GIT_DIR GIT_WORK_TREE GIT_INDEX_FILE
+  rm -f "$S/.idx"
+  if grep -rlq '^<<<<<<< ' "$S/src" 2>/dev/null; then echo "try_patch: patch failed (conflict)"; exit 2; fi
+else
+  (cd "$S" && patch -s -p1 $REV < "$P") || { echo "try_patch: patch failed"; exit 2; }
+fi
 RC=0
 for C in "$@"; do
   VERIF_REPO="$S" VERIF_EVIDENCE_DIR="$S/.evidence" /verif/check "$C" 2>&1 | grep -E "VIOLATION|KNOWN-FINDING|CHECKER-ERROR| OK | FAILED|^  [a-zA-Z]" | sed "s#$S#<scratch>#g"
